@@ -52,13 +52,17 @@ var (
 	// large pages (header probing, mmap sizing)
 	// maximum size that is not a multiple of the page size (documented: rounded down to full pages)
 	CfgU = Cfg{Name: "U", PageSize: 1024, MaxPages: 64, Extra: 1000}
-	CfgG = Cfg{Name: "G", PageSize: 65536, MaxPages: 0}
-	CfgH = Cfg{Name: "H", PageSize: 131072, MaxPages: 16}
+	// pre-sized meta areas around the 255-page boundary of the free-list encoding (the meta free list of a fresh file is one region)
+	CfgI255 = Cfg{Name: "I255", PageSize: 1024, MaxPages: 1024, InitMeta: 256} // 1 page holds the free list, 255 are free
+	CfgI256 = Cfg{Name: "I256", PageSize: 1024, MaxPages: 1024, InitMeta: 257}
+	CfgI254 = Cfg{Name: "I254", PageSize: 1024, MaxPages: 1024, InitMeta: 255}
+	CfgG    = Cfg{Name: "G", PageSize: 65536, MaxPages: 0}
+	CfgH    = Cfg{Name: "H", PageSize: 131072, MaxPages: 16}
 )
 
 // CfgByName looks a configuration up.
 func CfgByName(n string) (Cfg, bool) {
-	for _, c := range []Cfg{CfgA, CfgB, CfgC, CfgD, CfgE, CfgF, CfgP16, CfgP17, CfgP21, CfgG, CfgH, CfgU} {
+	for _, c := range []Cfg{CfgA, CfgB, CfgC, CfgD, CfgE, CfgF, CfgP16, CfgP17, CfgP21, CfgG, CfgH, CfgU, CfgI254, CfgI255, CfgI256} {
 		if c.Name == n {
 			return c, true
 		}
